@@ -245,7 +245,7 @@ func (c *Ctx) RunFunc(key string) *FuncResult {
 		return res
 	}
 	fx := &FuncExec{ctx: c, reg: c.reg, pkg: fi.Pkg, info: fi.Pkg.TypesInfo, fi: fi, contract: c.spec.Contracts[key],
-		varSort: map[string]string{}, varType: map[string]types.Type{}, counters: map[string]int{}, boxed: map[*types.Var]bool{},
+		varSort: map[string]string{}, varType: map[string]types.Type{}, counters: map[string]int{}, boxed: map[*types.Var]bool{}, addrTaken: map[*types.Var]bool{},
 		captured: map[*types.Var]bool{}, used: map[string]bool{}, uncontr: map[string]bool{}, writes: map[string]bool{}, ghostVar: map[string]string{}, forced: -1}
 	res.HasContract = fx.contract != nil
 	if fx.contract != nil {
